@@ -67,6 +67,7 @@ type Server struct {
 	RequireAuth bool              // answer 401 to unauthenticated API requests (users come from Basic auth)
 	NoVerify    bool              // do not offer verify actions
 	ActionHdr   map[string]string // extra headers attached to every offered action
+	UploadHdr   map[string]string // extra headers attached to upload actions only (e.g. a Content-Type for the PUT)
 	ExpiresIn   int               // expires_in for actions (0: none)
 	PageSize    int               // lock list page size (0: unlimited)
 	VerifyPut   bool              // reject uploads whose bytes do not hash to the oid (as real servers do)
@@ -368,6 +369,12 @@ func (s *Server) batch(w http.ResponseWriter, r *http.Request, repo string, body
 		case "upload":
 			if !has {
 				ob.Actions = map[string]*action{"upload": mk("/storage/" + repo + "/" + o.Oid)}
+				for k, v := range s.UploadHdr {
+					if ob.Actions["upload"].Header == nil {
+						ob.Actions["upload"].Header = map[string]string{}
+					}
+					ob.Actions["upload"].Header[k] = v
+				}
 				if !s.NoVerify {
 					ob.Actions["verify"] = mk("/verify/" + repo)
 				}
